@@ -135,3 +135,12 @@ M("c10-merge-min", "C10", K, '    c["min"][:] = np.minimum(a["min"], b["min"])',
 M("c10-var-bessel", "C10", ST, '        return self._moments["m2"] / self.nsamps', '        return self._moments["m2"] / max(self.nsamps - 1, 1)')
 M("c10-basic-m2", "C10", K, "    m1 += delta_n\n    m2 += delta * delta_n * (n - 1)\n    return m1, m2, n", "    m1 += delta_n\n    m2 += delta * delta_n * n\n    return m1, m2, n")
 M("c10-merge-count-int-division", "C10", K, '    c["m2"][:] = a["m2"] + b["m2"] + delta2 * a["count"] * b["count"] / c["count"]', '    c["m2"][:] = a["m2"] + b["m2"] + delta2 * (a["count"] * b["count"] // c["count"])', "merge uses integer division: exact only when n divides na*nb")
+
+# ---- C11
+M("c11-subint-no-index", "C11", K, "        subint = (isamp + index) // factor1", "        subint = isamp // factor1")
+M("c11-no-half-bin", "C11", K, "            nbins * tj * (1 + accel * (tj - tobs) / (2 * CONST_C_VAL)) / period + 0.5\n", "            nbins * tj * (1 + accel * (tj - tobs) / (2 * CONST_C_VAL)) / period\n")
+M("c11-fold-index", "C11", B, "                nbands,\n                ii * (gulp - max_delay),\n            )", "                nbands,\n                ii * gulp,\n            )")
+M("c11-factor2-int", "C11", K, "    factor2 = nchans / nsubs\n", "    factor2 = max(nchans // nsubs, 1)\n", "integer channels-per-band: wrong (and out of bounds) for non-divisors")
+M("c11-tobs-block", "C11", K, "    tobs = total_nsamps * tsamp\n", "    tobs = nsamps * tsamp\n", "acceleration term uses the block length")
+M("c11-ts-fold-total", "C11", T, "            accel,\n            self.data.size,\n            self.data.size,\n            1,\n            nbins,", "            accel,\n            self.data.size - 1,\n            self.data.size,\n            1,\n            nbins,", "time-series fold passes N-1 as the total")
+M("c11-fold-delay-chan", "C11", K, "            val = inarray[nchans * (isamp + delays[ichan]) + ichan]\n            fold_ar[pos2] += val", "            val = inarray[nchans * (isamp + delays[ichan] - (delays[ichan] > 3)) + ichan]\n            fold_ar[pos2] += val", "delays above 3 samples applied one short")
